@@ -6,7 +6,7 @@
    Per-field contracts below them.  Which definition is selected (variants) is C16/C17's subject and is tied by
    correspondence. *)
 From PyUbx Require Import Base Bytes PyFloat Types Strs Walk Consts Tables Msg WfDef.
-From PyUbx Require Import Msg_lemmas Codec_lemmas Bits_lemmas Field_lemmas Trace_lemmas Shape_lemmas.
+From PyUbx Require Import Msg_lemmas Codec_lemmas Bits_lemmas Field_lemmas Trace_lemmas Shape_lemmas Variant_lemmas.
 Open Scope Z_scope.
 
 (* every definition list, every payload, every repeat count, both bitfield views, every budget: the fields read
@@ -72,3 +72,40 @@ Theorem C02_flag : forall key keyt w fl idx bfv off s,
    bits_loop readonly_names None fl idx bfv (off + Z.of_nat w) s').
 Proof. exact bits_loop_parse_cons. Qed.
 Print Assumptions C02_flag.
+
+(* PAYLOAD VARIANTS of the multi-variant messages (the selectors of ubxvariants.py as modelled; the dispatch table
+   `variants` is regenerated from the code on every run).  Length-discriminated variants: the selected definition has
+   exactly the discriminating length (table obligation), so a payload of that length is laid out by the definition
+   that C02_trace then walks; byte-discriminated variants: selection is by that payload byte alone. *)
+Theorem C02_variant_lengths : forallb variant_len_ok variant_len_rows = true.
+Proof. exact variant_lengths. Qed.
+Print Assumptions C02_variant_lengths.
+Theorem C02_variant_cfgnmea : forall p, get_dict [6%N] [23%N] 0 (KwPayload p) p =
+  if Nat.eqb (length p) 4 then tab payloads_get "CFG-NMEAvX"
+  else if Nat.eqb (length p) 12 then tab payloads_get "CFG-NMEAv0" else tab payloads_get "CFG-NMEA".
+Proof. exact sel_cfgnmea. Qed.
+Print Assumptions C02_variant_cfgnmea.
+Theorem C02_variant_aopstatus : forall p, get_dict [1%N] [96%N] 0 (KwPayload p) p =
+  if Nat.eqb (length p) 20 then tab payloads_get "NAV-AOPSTATUS-L" else tab payloads_get "NAV-AOPSTATUS".
+Proof. exact sel_aopstatus. Qed.
+Print Assumptions C02_variant_aopstatus.
+Theorem C02_variant_rxmpmreq : forall p, get_dict [2%N] [65%N] 1 (KwPayload p) p =
+  if Nat.eqb (length p) 16 then tab payloads_set "RXM-PMREQ" else tab payloads_set "RXM-PMREQ-S".
+Proof. exact sel_rxmpmreq. Qed.
+Print Assumptions C02_variant_rxmpmreq.
+Theorem C02_variant_rxmrlm : forall p, get_dict [2%N] [89%N] 0 (KwPayload p) p =
+  if beq (slice p 1 1) [1%N] then tab payloads_get "RXM-RLM-S" else tab payloads_get "RXM-RLM-L".
+Proof. exact sel_rxmrlm. Qed.
+Print Assumptions C02_variant_rxmrlm.
+Theorem C02_variant_relposned : forall p, get_dict [1%N] [60%N] 0 (KwPayload p) p =
+  if beq (slice p 0 1) [0%N] then tab payloads_get "NAV-RELPOSNED-V0" else tab payloads_get "NAV-RELPOSNED".
+Proof. exact sel_relposned. Qed.
+Print Assumptions C02_variant_relposned.
+Theorem C02_variant_secsig : forall p, get_dict [39%N] [9%N] 0 (KwPayload p) p =
+  if beq (slice p 0 1) [1%N] then tab payloads_get "SEC-SIG-V1" else tab payloads_get "SEC-SIG-V2".
+Proof. exact sel_secsig. Qed.
+Print Assumptions C02_variant_secsig.
+Theorem C02_variant_alpsrv : forall p, get_dict [11%N] [50%N] 0 (KwPayload p) p =
+  if beq (slice p 1 1) [255%N] then tab payloads_get "AID-ALPSRV-SEND" else tab payloads_get "AID-ALPSRV-REQ".
+Proof. exact sel_alpsrv. Qed.
+Print Assumptions C02_variant_alpsrv.
